@@ -75,8 +75,11 @@ StringValues(T, cap) ==
 BitPattern(n, kind) == [i \in 1..n |-> IF kind = "ones" THEN 1 ELSE IF kind = "alt" THEN i % 2 ELSE (i + 1) % 2]
 BitsValues(T, cap) ==
   UNION {{[n |-> n, o |-> PackRight(BitPattern(n, kd))] : kd \in {"ones", "alt", "alt2"}} : n \in SizeSamples(T.size, cap)}
+\* lengths at which an encoding crosses a power of two / the 127-128 length-form boundary
+BoundarySizes(c) == {n \in {30, 31, 62, 63, 126, 127, 128} : Sat(c, I(n), BI(0), BMax)}
 OctetsValues(T, cap) ==
   UNION {{Cyc(<<0, 255, 1, 128, 127>>, n, 0), Cyc(<<171>>, n, 0)} : n \in SizeSamples(T.size, cap)}
+  \cup (IF T.size.op = "none" THEN {Cyc(<<171, 0, 255>>, n, 0) : n \in BoundarySizes(T.size)} ELSE {})
 
 OidValues == { <<1,2>>, <<0,0>>, <<0,39>>, <<1,39,127,128>>, <<2,999,3>>, <<1,2,840,113549>>,
                <<2,100,16383,16384,2147483647>>, <<2,40>>, <<2,47,0>> }
@@ -126,7 +129,8 @@ Values(env, T0, d) ==
 
 \* ---- values that violate exactly one constraint at one position (C07, C08) -----
 \* Only what a C structure can hold; sizes are kept small.
-FarInts == {I(-1), I(-129), I(256), I(65536), IDec(Int32Min), IPow2(31), IPow2(32), IDec(IPow2(63)), INeg(IPow2(63))}
+FarInts == {I(-1), I(-129), I(256), I(65536), IDec(Int32Min), IPow2(31), IPow2(32), IDec(IPow2(63)), INeg(IPow2(63)),
+            IPow2(200), INeg(IPow2(167))}
 \* (extensible constraints are outside C08: no corruption is derived from them)
 BadInts(c) == IF Eff(c).ext THEN {}
               ELSE {x \in NearBounds(Eff(c)) \cup FarInts : ~Sat(c, x, BMin, BMax) /\ Representable(c, x)}
